@@ -245,6 +245,12 @@ class Lookup(ABC):
 
     def _get_key(self, cards: CardsLike) -> tuple[int, bool]:
         cards = Card.clean(cards)
+
+        if not all(cards):
+            raise ValueError(
+                f'The cards {repr(cards)} contain unknown cards.',
+            )
+
         hash_ = self.__hash(Card.get_ranks(cards))
         suitedness = Card.are_suited(cards)
 
